@@ -188,6 +188,9 @@ CLAIMED["C20"] = (
 NOT_YET = {
 }
 
+# properties whose thorough tier has the coverage-guided stage (see ./check)
+FUZZED = {"C01", "C02", "C03", "C04", "C05", "C10", "C11", "C12", "C13", "C14", "C15", "C16", "C17", "C18", "C20"}
+
 
 def main():
     props = [json.loads(l) for l in open(os.path.join(VERIF, "properties.jsonl"))]
@@ -197,6 +200,13 @@ def main():
         pid = p["id"]
         if pid in CLAIMED:
             tech, text, note, ref = CLAIMED[pid]
+            if pid in FUZZED:
+                tech += "; thorough tier adds a coverage-guided libFuzzer campaign over the same generator and oracle"
+                text += (
+                    " The thorough tier then runs libFuzzer (cargo-fuzz, ASan build, 16 jobs) whose input bytes are the random stream of the "
+                    "same proptest strategy and whose oracle is the same check: coverage of the instrumented library steers mutations of "
+                    "the generator's choices; failures are reduced, written as ordinary replay files and confirmed in the ordinary build."
+                )
             checks.append(
                 {
                     "property_id": pid,
@@ -248,6 +258,12 @@ def main():
                 "path": "/verif/harness",
                 "serves_properties": sorted(CLAIMED),
                 "kind_free_text": "Rust binary: proptest strategies + per-property oracles; parent process spawns worker child processes (crash isolation, breadcrumbs), merges evidence, replays /verif/regress first, matches failures against /verif/known_findings.json",
+            },
+            {
+                "name": "fz",
+                "path": "/verif/harness/fuzz",
+                "serves_properties": sorted(FUZZED),
+                "kind_free_text": "cargo-fuzz / libFuzzer target (nightly, ASan) linking the same harness library: bytes -> proptest pass-through RNG -> the property's strategy -> the property's check; run by tools/fuzz_stage.sh as the second stage of the thorough tier",
             }
         ],
         "checks": checks,
